@@ -1,0 +1,348 @@
+//go:build verif
+
+// Purpose: Function-level RPC over stdin/stdout for external verification harnesses.
+// Exports: VerifRPC.
+// Role: Exposes package-internal pure functions (replay, compact, readiness, prune
+// policy, path validation, row layout) on JSON-lines requests.
+// Invariants: Never used by normal builds; read-only except where a request names a path.
+// Notes: Built only with -tags verif.
+package ergo
+
+import (
+	"bufio"
+	"bytes"
+	"encoding/base64"
+	"encoding/json"
+	"fmt"
+	"io"
+	"path/filepath"
+	"sort"
+	"time"
+)
+
+type verifReq struct {
+	Op      string            `json:"op"`
+	Path    string            `json:"path,omitempty"`
+	Dir     string            `json:"dir,omitempty"`
+	Epic    string            `json:"epic,omitempty"`
+	From    string            `json:"from,omitempty"`
+	To      string            `json:"to,omitempty"`
+	S       string            `json:"s,omitempty"`    // base64 bytes
+	Strs    []string          `json:"strs,omitempty"` // base64 bytes
+	Width   int               `json:"width,omitempty"`
+	Flags   []string          `json:"flags,omitempty"`
+	HTML    bool              `json:"html,omitempty"`
+	Repo    string            `json:"repo,omitempty"`
+	IDs     []string          `json:"ids,omitempty"`
+	Updates map[string]string `json:"updates,omitempty"`
+	Agent   string            `json:"agent,omitempty"`
+}
+
+type verifTime []int64 // [unix seconds, nanoseconds]; nil = unparsable
+
+func verifT(t time.Time) verifTime { return verifTime{t.Unix(), int64(t.Nanosecond())} }
+
+func verifTS(s string) verifTime {
+	t, err := parseTime(s)
+	if err != nil {
+		return nil
+	}
+	return verifT(t)
+}
+
+// verifTypedEvent decodes one raw event the way replayEvents would.
+func verifTypedEvent(ev Event) map[string]interface{} {
+	out := map[string]interface{}{"t": ev.Type}
+	bad := func() map[string]interface{} { out["bad"] = true; return out }
+	switch ev.Type {
+	case "new_task", "new_epic":
+		var d NewTaskEvent
+		if json.Unmarshal(ev.Data, &d) != nil {
+			return bad()
+		}
+		out["id"], out["uuid"], out["epic"], out["state"], out["title"], out["body"] = d.ID, d.UUID, d.EpicID, d.State, d.Title, d.Body
+		out["at"] = verifTS(d.CreatedAt)
+	case "state":
+		var d StateEvent
+		if json.Unmarshal(ev.Data, &d) != nil {
+			return bad()
+		}
+		out["id"], out["state"], out["at"] = d.ID, d.NewState, verifTS(d.TS)
+	case "claim":
+		var d ClaimEvent
+		if json.Unmarshal(ev.Data, &d) != nil {
+			return bad()
+		}
+		out["id"], out["agent"], out["at"] = d.ID, d.AgentID, verifTS(d.TS)
+	case "unclaim":
+		var d UnclaimEvent
+		if json.Unmarshal(ev.Data, &d) != nil {
+			return bad()
+		}
+		out["id"], out["at"] = d.ID, verifTS(d.TS)
+	case "link", "unlink":
+		var d LinkEvent
+		if json.Unmarshal(ev.Data, &d) != nil {
+			return bad()
+		}
+		out["from"], out["to"], out["ltype"] = d.FromID, d.ToID, d.Type
+	case "title":
+		var d TitleUpdateEvent
+		if json.Unmarshal(ev.Data, &d) != nil {
+			return bad()
+		}
+		out["id"], out["title"], out["at"] = d.ID, d.Title, verifTS(d.TS)
+	case "body":
+		var d BodyUpdateEvent
+		if json.Unmarshal(ev.Data, &d) != nil {
+			return bad()
+		}
+		out["id"], out["body"], out["at"] = d.ID, d.Body, verifTS(d.TS)
+	case "epic":
+		var d EpicAssignEvent
+		if json.Unmarshal(ev.Data, &d) != nil {
+			return bad()
+		}
+		out["id"], out["epic"], out["at"] = d.ID, d.EpicID, verifTS(d.TS)
+	case "tombstone":
+		var d TombstoneEvent
+		if json.Unmarshal(ev.Data, &d) != nil {
+			return bad()
+		}
+		out["id"], out["agent"], out["at"] = d.ID, d.AgentID, verifTS(d.TS)
+	case "result":
+		var d ResultEvent
+		if json.Unmarshal(ev.Data, &d) != nil {
+			return bad()
+		}
+		out["id"], out["summary"], out["path"], out["sha"], out["mtime"], out["git"] = d.TaskID, d.Summary, d.Path, d.Sha256AtAttach, d.MtimeAtAttach, d.GitCommitAtAttach
+		out["at"] = verifTS(d.TS)
+	}
+	return out
+}
+
+func verifTypedEvents(events []Event) []map[string]interface{} {
+	out := make([]map[string]interface{}, 0, len(events))
+	for _, ev := range events {
+		out = append(out, verifTypedEvent(ev))
+	}
+	return out
+}
+
+func verifDumpGraph(graph *Graph) map[string]interface{} {
+	tasks := []map[string]interface{}{}
+	for _, t := range sortedTasks(graph.Tasks) {
+		results := []map[string]interface{}{}
+		for _, r := range t.Results {
+			results = append(results, map[string]interface{}{
+				"summary": r.Summary, "path": r.Path, "sha": r.Sha256AtAttach,
+				"mtime": r.MtimeAtAttach, "git": r.GitCommitAtAttach, "at": verifT(r.CreatedAt),
+			})
+		}
+		item := map[string]interface{}{
+			"id": t.ID, "uuid": t.UUID, "epic": t.EpicID, "is_epic": t.IsEpic, "state": t.State,
+			"title": t.Title, "body": t.Body, "claimed_by": t.ClaimedBy,
+			"created": verifT(t.CreatedAt), "updated": verifT(t.UpdatedAt),
+			"deps": append([]string{}, t.Deps...), "rdeps": append([]string{}, t.RDeps...),
+			"results": results, "ready": isReady(t, graph), "blocked": isBlocked(t, graph),
+			"claimed_at": claimedAtForTask(t, graph.Meta[t.ID]),
+		}
+		if m := graph.Meta[t.ID]; m != nil {
+			item["meta"] = map[string]interface{}{
+				"title": m.CreatedTitle, "body": m.CreatedBody, "state": m.CreatedState,
+				"epic": m.CreatedEpicID, "created": verifT(m.CreatedAt),
+				"last_state": verifT(m.LastStateAt), "last_claim": verifT(m.LastClaimAt),
+				"last_title": verifT(m.LastTitleAt), "last_body": verifT(m.LastBodyAt),
+				"last_epic": verifT(m.LastEpicAt),
+			}
+		}
+		tasks = append(tasks, item)
+	}
+	tombs := []string{}
+	for id := range graph.Tombstones {
+		tombs = append(tombs, id)
+	}
+	sort.Strings(tombs)
+	deps := map[string][]string{}
+	for from, m := range graph.Deps {
+		deps[from] = sortedKeys(m)
+		if deps[from] == nil {
+			deps[from] = []string{}
+		}
+	}
+	return map[string]interface{}{"tasks": tasks, "tombstones": tombs, "deps": deps}
+}
+
+func verifIDsOf(tasks []*Task) []string {
+	ids := []string{}
+	for _, t := range tasks {
+		ids = append(ids, t.ID)
+	}
+	return ids
+}
+
+func verifPathOf(req verifReq) string {
+	if req.Path != "" {
+		return req.Path
+	}
+	return getEventsPath(req.Dir)
+}
+
+func verifHandle(req verifReq) (interface{}, error) {
+	switch req.Op {
+	case "ping":
+		return "pong", nil
+	case "decode":
+		events, err := readEvents(verifPathOf(req))
+		if err != nil {
+			return nil, err
+		}
+		return verifTypedEvents(events), nil
+	case "snapshot":
+		events, err := readEvents(verifPathOf(req))
+		if err != nil {
+			return nil, err
+		}
+		graph, err := replayEvents(events)
+		if err != nil {
+			return map[string]interface{}{"replay_error": err.Error(), "events": verifTypedEvents(events)}, nil
+		}
+		out := verifDumpGraph(graph)
+		out["events"] = verifTypedEvents(events)
+		out["ready_order"] = verifIDsOf(readyTasks(graph, "", kindTask))
+		out["prune_targets"] = append([]string{}, selectPruneTargets(graph)...)
+		return out, nil
+	case "compact":
+		events, err := readEvents(verifPathOf(req))
+		if err != nil {
+			return nil, err
+		}
+		graph, err := replayEvents(events)
+		if err != nil {
+			return nil, err
+		}
+		compacted, err := compactEvents(graph)
+		if err != nil {
+			return nil, err
+		}
+		g2, err := replayEvents(compacted)
+		if err != nil {
+			return nil, fmt.Errorf("replay of compacted log: %w", err)
+		}
+		out := verifDumpGraph(g2)
+		out["events"] = verifTypedEvents(compacted)
+		out["ready_order"] = verifIDsOf(readyTasks(g2, "", kindTask))
+		return out, nil
+	case "ready":
+		events, err := readEvents(verifPathOf(req))
+		if err != nil {
+			return nil, err
+		}
+		graph, err := replayEvents(events)
+		if err != nil {
+			return nil, err
+		}
+		return verifIDsOf(readyTasks(graph, req.Epic, kindTask)), nil
+	case "cycle":
+		events, err := readEvents(verifPathOf(req))
+		if err != nil {
+			return nil, err
+		}
+		graph, err := replayEvents(events)
+		if err != nil {
+			return nil, err
+		}
+		return hasCycle(graph, req.From, req.To), nil
+	case "clean":
+		out := []string{}
+		for _, s := range req.Strs {
+			b, err := base64.StdEncoding.DecodeString(s)
+			if err != nil {
+				return nil, err
+			}
+			out = append(out, base64.StdEncoding.EncodeToString([]byte(filepath.Clean(string(b)))))
+		}
+		return out, nil
+	case "valpath":
+		out := []interface{}{}
+		for _, s := range req.Strs {
+			b, err := base64.StdEncoding.DecodeString(s)
+			if err != nil {
+				return nil, err
+			}
+			clean, verr := validateResultPath(req.Repo, string(b))
+			if verr != nil {
+				out = append(out, map[string]interface{}{"err": verr.Error()})
+			} else {
+				out = append(out, map[string]interface{}{"ok": base64.StdEncoding.EncodeToString([]byte(clean))})
+			}
+		}
+		return out, nil
+	case "jsonstr":
+		out := []string{}
+		for _, s := range req.Strs {
+			b, err := base64.StdEncoding.DecodeString(s)
+			if err != nil {
+				return nil, err
+			}
+			var buf bytes.Buffer
+			enc := json.NewEncoder(&buf)
+			enc.SetEscapeHTML(req.HTML)
+			if err := enc.Encode(string(b)); err != nil {
+				return nil, err
+			}
+			out = append(out, base64.StdEncoding.EncodeToString(bytes.TrimSuffix(buf.Bytes(), []byte("\n"))))
+		}
+		return out, nil
+	case "jsonunstr":
+		out := []interface{}{}
+		for _, s := range req.Strs {
+			b, err := base64.StdEncoding.DecodeString(s)
+			if err != nil {
+				return nil, err
+			}
+			var v string
+			if err := json.Unmarshal(b, &v); err != nil {
+				out = append(out, nil)
+			} else {
+				out = append(out, base64.StdEncoding.EncodeToString([]byte(v)))
+			}
+		}
+		return out, nil
+	}
+	return nil, fmt.Errorf("unknown op %q", req.Op)
+}
+
+// VerifRPC serves JSON-lines requests until EOF.
+func VerifRPC(r io.Reader, w io.Writer) error {
+	reader := bufio.NewReaderSize(r, 1<<20)
+	out := bufio.NewWriter(w)
+	defer out.Flush()
+	for {
+		line, err := reader.ReadBytes('\n')
+		if len(bytes.TrimSpace(line)) > 0 {
+			var req verifReq
+			var resp map[string]interface{}
+			if uerr := json.Unmarshal(line, &req); uerr != nil {
+				resp = map[string]interface{}{"err": "bad request: " + uerr.Error()}
+			} else if val, herr := verifHandle(req); herr != nil {
+				resp = map[string]interface{}{"err": herr.Error()}
+			} else {
+				resp = map[string]interface{}{"ok": val}
+			}
+			data, merr := json.Marshal(resp)
+			if merr != nil {
+				data, _ = json.Marshal(map[string]interface{}{"err": "marshal: " + merr.Error()})
+			}
+			out.Write(data)
+			out.WriteByte('\n')
+			out.Flush()
+		}
+		if err != nil {
+			if err == io.EOF {
+				return nil
+			}
+			return err
+		}
+	}
+}
